@@ -58,6 +58,10 @@ def cases(tier, seed):
 
 
 CORPUS = [
+    # optimised expression lists whose intermediates are defined through other intermediates (carry chains)
+    {"kind": "script", "fns": [{"name": "f", "src": "def f(a: Qint[3], b: Qint[3]) -> bool:\n    return a + b > b\n"}], "sub": False},
+    {"kind": "script", "fns": [{"name": "f", "src": "def f(a: Qint[3], b: Qint[3]) -> bool:\n    return a + b >= a\n"}], "sub": False},
+    {"kind": "script", "fns": [{"name": "g", "src": "def g(a: Qint[3], b: Qint[3]) -> bool:\n    return a - b > b\n"}, {"name": "f", "src": "def f(a: Qint[3], b: Qint[3]) -> bool:\n    return (a + b) < (a ^ b)\n"}], "sub": False},
     # module-level names that differ from the def name, and a redefinition whose first version stays reachable
     {"kind": "script", "fns": [{"name": "f", "src": "def f(a: bool, b: bool) -> bool:\n    return a and not b\n", "alias": "g"}, {"name": "h", "src": "def h(a: bool, b: bool) -> bool:\n    return a ^ b\n"}], "sub": False},
     {"kind": "script", "fns": [{"name": "check", "src": "def check(a: Qint[2]) -> bool:\n    return a == 1\n", "alias": "baseline"}, {"name": "check", "src": "def check(a: Qint[2]) -> bool:\n    return a == 2\n"}], "sub": True},
